@@ -146,7 +146,7 @@ Definition norm_tag (n : normalisation) : string :=
   | StableSortRuns => "StableSortRuns" | OrderedIteration => "OrderedIteration"
   | KeyLookupOnly => "KeyLookupOnly" | UniqueSlotOnly => "UniqueSlotOnly"
   | CanonicalRotation => "CanonicalRotation" | HeapTotalOrder => "HeapTotalOrder"
-  | NoCombine => "NoCombine" | SequentialPolicy => "SequentialPolicy" | Allowed _ => "Allowed" | Flagged _ => "Flagged"
+  | NoCombine => "NoCombine" | SequentialPolicy => "SequentialPolicy" | StableMergeBounds => "StableMergeBounds" | Allowed _ => "Allowed" | Flagged _ => "Flagged"
   | UnstableSort => "UnstableSort" | NotNormalised => "NotNormalised"
   end.
 
@@ -162,7 +162,8 @@ Definition expected_sites : bool :=
   has "src/boolean2.cpp" "StableSortTotalKey" 3 &&      (* MergeVerts, flatHits, RadixSortPairs *)
   has "src/boolean_result.cpp" "StableSortRuns" 3 &&    (* edgesP, edgesQ, edgesNew *)
   has "src/boolean_result.cpp" "CanonicalRotation" 2 && (* AtomicAdd(facePtr) x2 *)
-  has "src/csg_tree.cpp" "HeapTotalOrder" 1.
+  has "src/csg_tree.cpp" "HeapTotalOrder" 1 &&
+  has "src/parallel.h" "StableMergeBounds" 1.           (* the parallel merge keeps ties in input order *)
 
 Lemma gen_all_combines_normalised : sites_ok sites = true /\ expected_sites = true.
 Proof. split; vm_compute; reflexivity. Qed.
